@@ -1,7 +1,7 @@
-import RCE.Model.Eval
+import RCE.Proofs.PopcountBswap
 /-! Helper definitions and lemmas for C17. -/
 namespace RCE.Proofs.EvalSym
-open RCE Gen
+open RCE Gen RCE.Proofs.PopcountBswap
 
 /-- total material of colour `c`, in centipawns, as an unbounded natural number -/
 def material (b : Board) (c : Color) : Nat :=
@@ -10,5 +10,121 @@ def material (b : Board) (c : Color) : Nat :=
 def MaterialBounded (b : Board) : Prop := material b .white ≤ 32767 ∧ material b .black ≤ 32767
 
 instance (b : Board) : Decidable (MaterialBounded b) := by unfold MaterialBounded; infer_instance
+
+/-! ### mirror -/
+
+theorem opp_opp (c : Color) : c.opp.opp = c := by cases c <;> rfl
+
+theorem get_mirror (b : Board) (k : PK) (c : Color) :
+    popcount ((mirrorBoard b).bbs.get ⟨k, c.opp⟩) = popcount (b.bbs.get ⟨k, c⟩) := by
+  cases c <;> cases k <;> simp only [mirrorBoard, PBB.get, Color.opp, popcount_bswap]
+
+theorem evalLoop_mirror (b : Board) (c : Color) (loop : List (Nat × Nat)) (op : Int → Int → Int) (init : Int) :
+    evalLoop (mirrorBoard b) c.opp loop op init = evalLoop b c loop op init := by
+  unfold evalLoop
+  simp only [get_mirror]
+
+theorem eval_mirror' (b : Board) : (mirrorBoard b).evaluate = b.evaluate := by
+  unfold Board.evaluate
+  have ht : (mirrorBoard b).turn = b.turn.opp := rfl
+  simp only [ht, evalLoop_mirror]
+
+/-! ### no saturation under `MaterialBounded` -/
+
+/-- material over an arbitrary loop list, with accumulator -/
+def mat (b : Board) (c : Color) (loop : List (Nat × Nat)) (acc : Nat) : Nat :=
+  loop.foldl (fun acc kv => acc + popcount (b.bbs.get ⟨pkOfIdx kv.1, c⟩) * kv.2) acc
+
+theorem material_eq (b : Board) (c : Color) : material b c = mat b c evalLoop0 0 := rfl
+
+theorem mat_cons (b : Board) (c : Color) (kv : Nat × Nat) (loop : List (Nat × Nat)) :
+    mat b c (kv :: loop) 0 = popcount (b.bbs.get ⟨pkOfIdx kv.1, c⟩) * kv.2 + mat b c loop 0 := by
+  have acc_lemma : ∀ (l : List (Nat × Nat)) (acc : Nat), mat b c l acc = acc + mat b c l 0 := by
+    intro l
+    induction l with
+    | nil => intro acc; simp [mat]
+    | cons kv l ih =>
+      intro acc
+      simp only [mat, List.foldl_cons] at ih ⊢
+      rw [ih, ih (0 + _)]; omega
+  simp only [mat, List.foldl_cons] at acc_lemma ⊢
+  rw [acc_lemma]; omega
+
+theorem wrapI16_id (x : Int) (h0 : 0 ≤ x) (h1 : x ≤ 32767) : wrapI16 x = x := by
+  unfold wrapI16; omega
+
+theorem satI16_id (x : Int) (h0 : -32768 ≤ x) (h1 : x ≤ 32767) : satI16 x = x := by
+  unfold satI16 i16Max i16Min
+  rw [if_neg (by omega), if_neg (by omega)]
+
+theorem evalLoop_cons (b : Board) (c : Color) (kv : Nat × Nat) (loop : List (Nat × Nat))
+    (op : Int → Int → Int) (init : Int) :
+    evalLoop b c (kv :: loop) op init =
+      evalLoop b c loop op (op init (wrapI16 ((popcount (b.bbs.get ⟨pkOfIdx kv.1, c⟩) : Int) * (kv.2 : Int)))) := rfl
+
+theorem evalLoop_add (b : Board) (c : Color) (loop : List (Nat × Nat)) :
+    ∀ s : Int, 0 ≤ s → s + mat b c loop 0 ≤ 32767 → evalLoop b c loop satAdd s = s + mat b c loop 0 := by
+  induction loop with
+  | nil => intro s _ _; simp [evalLoop, mat]
+  | cons kv loop ih =>
+    intro s h0 h1
+    rw [evalLoop_cons, mat_cons, ← Int.natCast_mul] at *
+    generalize popcount (b.bbs.get ⟨pkOfIdx kv.1, c⟩) * kv.2 = t at *
+    rw [wrapI16_id _ (by omega) (by omega), satAdd, satI16_id _ (by omega) (by omega),
+      ih _ (by omega) (by omega)]
+    omega
+
+theorem evalLoop_sub (b : Board) (c : Color) (loop : List (Nat × Nat)) :
+    ∀ s : Int, s ≤ 32767 → -32768 ≤ s - mat b c loop 0 → mat b c loop 0 ≤ 32767 →
+      evalLoop b c loop satSub s = s - mat b c loop 0 := by
+  induction loop with
+  | nil => intro s _ _ _; simp [evalLoop, mat]
+  | cons kv loop ih =>
+    intro s h0 h1 h2
+    rw [evalLoop_cons, mat_cons, ← Int.natCast_mul] at *
+    generalize popcount (b.bbs.get ⟨pkOfIdx kv.1, c⟩) * kv.2 = t at *
+    rw [wrapI16_id _ (by omega) (by omega), satSub, satI16_id _ (by omega) (by omega),
+      ih _ (by omega) (by omega) (by omega)]
+    omega
+
+theorem material_opp_le (b : Board) (h : MaterialBounded b) (c : Color) : material b c ≤ 32767 := by
+  cases c
+  · exact h.1
+  · exact h.2
+
+/-- under `MaterialBounded` no step saturates or wraps: the result is the integer difference -/
+theorem evaluate_eq_material_diff (b : Board) (h : MaterialBounded b) :
+    b.evaluate = (material b b.turn : Int) - (material b b.turn.opp : Int) := by
+  have h1 := material_opp_le b h b.turn
+  have h2 := material_opp_le b h b.turn.opp
+  have hl : evalLoop1 = evalLoop0 := by decide
+  unfold Board.evaluate
+  simp only [hl]
+  simp only [material_eq] at *
+  rw [evalLoop_add b _ _ 0 (by omega) (by omega), evalLoop_sub b _ _ _ (by omega) (by omega) (by omega)]
+  omega
+
+theorem eval_range' (b : Board) (h : MaterialBounded b) : -32767 ≤ b.evaluate ∧ b.evaluate ≤ 32767 := by
+  have h1 := material_opp_le b h b.turn
+  have h2 := material_opp_le b h b.turn.opp
+  rw [evaluate_eq_material_diff b h]
+  omega
+
+theorem eval_swap' (b : Board) (h : MaterialBounded b) : (swapTurn b).evaluate = - b.evaluate := by
+  have hs : MaterialBounded (swapTurn b) := h
+  rw [evaluate_eq_material_diff b h, evaluate_eq_material_diff _ hs]
+  have e1 : ∀ c, material (swapTurn b) c = material b c := fun _ => rfl
+  have e2 : (swapTurn b).turn = b.turn.opp := rfl
+  rw [e1, e1, e2, opp_opp]
+  omega
+
+/-- 36 white queens and a white rook against a bare board: White to move saturates at 32767,
+    Black to move at −32768 -/
+def satBoard : Board :=
+  { turn := .white, fullmove := 1, ep := none, history := [], posHist := [],
+    bbs := { PBB.empty with wq := 0xFFFFFFFFF, wr := 0x1000000000 }, zkey := 0 }
+
+theorem saturation_witness : ∃ b : Board, (swapTurn b).evaluate ≠ - b.evaluate :=
+  ⟨satBoard, by decide +kernel⟩
 
 end RCE.Proofs.EvalSym
